@@ -1,6 +1,10 @@
 package hsim
 
-import "hagallsim/simrt"
+import (
+	"time"
+
+	"hagallsim/simrt"
+)
 
 func histProfile(name string, over map[string]int, f func(p *Profile)) *Profile {
 	p := &Profile{Name: name, MinSteps: 8, MaxSteps: 70, MaxConns: 6, MaxSessions: 3, W: weights(over),
@@ -36,6 +40,19 @@ func histSpec(id string, prof *Profile, rule string, nt func(res *Result) bool) 
 			}
 			sc := GenHistory(seed, &p)
 			sc.Prop = id
+			for _, st := range sc.Steps {
+				if st.Op == "idle_out" {
+					// long enough that nobody else idles out in the course of the scenario, frames
+					// long enough that two simulated minutes of ticks stay cheap
+					sc.World.IdleTimeout = 2 * time.Minute
+					if sc.World.FrameDuration < 50*time.Millisecond {
+						sc.World.FrameDuration = 50 * time.Millisecond
+					}
+					if sc.World.SyncClock < time.Second {
+						sc.World.SyncClock = time.Second
+					}
+				}
+			}
 			return sc
 		}}
 }
@@ -86,6 +103,7 @@ func init() {
 		p.PBlock = 0.06 // a departure overlapping a join or another member's change
 		p.PFocus = 0.3
 		p.PEndgame = 0.15
+		p.PIdleOut = 0.12
 		p.BlockOps = []string{"close", "close", "switch", "joiner", "joiner", "entity_add", "comp_add", "action"}
 	}),
 		"distinct run digests with a departure of a member that owned entities", func(r *Result) bool { return trig(r, "departure", "server_ended") })
